@@ -27,6 +27,7 @@ revert_syncmap_deleteall_count C18
 revert_prepareread_order C08
 c18_expireall_count_before_lock C18
 c12_sys_limit_ignored C12
+revert_restore_expirations C11
 log_guard_wrong_level C04
 c07_nil_value_is_miss C07
 LIST
